@@ -388,7 +388,6 @@ class SuperSpeedStreamInEndpoint(Elaboratable):
                         with m.If(last_packet_was_zlp):
                             m.d.comb += [
                                 interface.tx_zlp.eq(1),
-                                advance_sequence.eq(1),
                             ]
 
                         # ... or by moving right back into sending a data packet.
@@ -402,6 +401,10 @@ class SuperSpeedStreamInEndpoint(Elaboratable):
 
                         # We no longer need to keep the data that's been acknowledged; clear it.
                         m.d.ss += read_fill_count.eq(0)
+
+                        # The packet has been accepted; the next packet carries the next sequence number,
+                        # whichever path we take from here.
+                        m.d.comb += advance_sequence.eq(1)
 
                         # Figure out if we'll need to follow up with a ZLP. If we have ZLP generation enabled,
                         # we'll make sure we end on a short packet. If this is max-packet-size packet _and_ our
